@@ -38,8 +38,8 @@ CHECKS = {
    "3/C05"),
  "C04": ("exploration",
    "exhaustive enumeration: every conflicting rule set of small classes x every precedence decoration (levels, associativities, %prec, both rule orders) compared cell by cell with the resolution prescribed by the property; every operator table (<=3 binary operators, <=3 levels, unary minus via %prec, parentheses) x every sentence up to the bound compared with a precedence-climbing reference, on yaccgo's table and on generated parsers",
-   "Cell level: all two-way conflict cells of all decorated grammars (rule sets of the small classes, mixfix rules with two precedence-bearing terminals, precedence families) must hold the prescribed winner (higher precedence; equal: left reduces, right shifts, nonassoc errors; otherwise shift / earlier rule). Expression level: every expression groups as the declarations say; in addition every sentence of every fully-resolved precedence grammar is parsed by yaccgo's dense AND packed table and compared (verdict, reductions) with a parser built to the reference table. Cells the statement leaves open are only required to hold a candidate or error.",
-   "Trusted: reference conflict candidates (LR(1) merge), the transcription of the resolution rule, the precedence-climbing parser. Not judged: cells with more than two candidates, reduce/reduce where both rules carry precedence, rules whose precedence would come from a non-last terminal.",
+   "Cell level: all two-way conflict cells (and the cells with more candidates whose outcome does not depend on the order in which the pairs are compared) of all decorated grammars (rule sets of the small classes, mixfix rules with two precedence-bearing terminals, precedence families) must hold the prescribed winner (higher precedence; equal: left reduces, right shifts, nonassoc errors; otherwise shift / earlier rule). Expression level: every expression groups as the declarations say; in addition every sentence of every fully-resolved precedence grammar is parsed by yaccgo's dense AND packed table and compared (verdict, reductions) with a parser built to the reference table. Cells the statement leaves open are only required to hold a candidate or error.",
+   "Trusted: reference conflict candidates (LR(1) merge), the transcription of the resolution rule, the precedence-climbing parser. Not judged: cells with more than two candidates whose outcome depends on the order of comparison, reduce/reduce where both rules carry precedence, rules whose precedence would come from a non-last terminal.",
    "3/C04"),
  "C06": ("model_checking",
    "same explicit-state exploration with an extra unknown-token input symbol; oracle: non-accepting runs end in the documented error outcome (never index error / garbage action); on conflict-free grammars the first non-viable token (Earley) is rejected unshifted after finitely many reductions; outcome class and fetch count replayed on generated parsers",
@@ -57,7 +57,7 @@ CHECKS = {
    "Trusted: Go toolchain, Node 20, the type eraser (logs every deleted span). The embedded template strings equal the .templ files on this tree; a Makefile regeneration is not exercised.",
    "3/C08"),
  "C17": ("model_checking",
-   "bounded exhaustive replay with IsTrace=true on the four Go variants: stdout lines compared, in order, with the lines predicted from the model run and the specification's rule text; number of traced reductions compared with reductions executed by the actions",
+   "bounded exhaustive replay with IsTrace=true on the four Go variants: stdout lines compared, in order, with the lines predicted from the model run and the specification's rule text; number of traced reductions compared with reductions executed by the actions; where the declarations decide every table cell, the reductions executed on every input (rejected ones included) are compared with the run of the reference automaton (\"a legal run\")",
    "Every line of every traced run (all strings up to the bound, rejected ones up to the error) must be the action actually performed: shifts and gotos with the pushed state, reductions with exact rule text, lookahead and goto state.",
    "Trusted: abstract LR driver (bound to generated code by C01/C08 replays), whitespace-normalised comparison.",
    "3/C17"),
@@ -92,8 +92,8 @@ CHECKS = {
    "Trusted: gographviz parser for DOT syntax, the reference conflict classification for listing-vs-table differences. The PNG rendering through the external dot program is not checked (dot is not installed).",
    "3/C18"),
  "C19": ("fault_enumeration",
-   "exhaustive fault enumeration over corpus grammar files: every byte prefix, every single-token deletion/duplication/replacement by each fragment of a 38-piece lexical alphabet, and semantic faults derived from the specification (undefined symbol at every right-hand-side position, each nonterminal made unproductive, %prec/%left of undeclared tokens, $n out of range in each action, %type of a ruleless name, missing %start) x {go, -u, -o, typescript}, with the output path pre-filled with sentinel bytes; in-process for the whole space and through the real CLI (exit status, bytes, inode) for a fixed stride",
-   "Every input-caused failure explored leaves the existing output file byte-identical (same inode); every success leaves a complete file ending with the program section and containing a case for every rule.",
+   "exhaustive fault enumeration over corpus grammar files: every byte prefix, every single-token deletion/duplication/replacement by each fragment of a 38-piece lexical alphabet, and semantic faults derived from the specification (undefined symbol at every right-hand-side position, each nonterminal made unproductive, %prec/%left of undeclared tokens, $n out of range in each action, %type of a ruleless name, missing %start) x {go, -u, -o, typescript}, with the output path pre-filled with sentinel bytes (and, for successful generations, with a file of exactly the new size but other content, a 10-byte file and the output itself); in-process for the whole space and through the real CLI (exit status, bytes, inode) for a fixed stride",
+   "Every input-caused failure explored leaves the existing output file byte-identical (same inode); every success leaves a complete file ending with the program section and containing a case for every rule, the same bytes whatever the path held before.",
    "Failure = error return or panic of the generator. Non-terminating inputs are excluded here (C13). Faults attributable to the environment (unwritable path, full disk) are outside the statement.",
    "3/C19"),
  "C15": ("model_checking",
